@@ -78,6 +78,8 @@ def cmd_of(text):
     return int(m.group(1)) if m else -1
 
 
+FINDING_DRIFT = 'C18-repeat-drifts'
+
 class PlugImpl(object):
     def __init__(self, clk, heap_install):
         self.L = live(clk)
@@ -94,8 +96,22 @@ class PlugImpl(object):
         self.repeat = {}        # cmd token -> {'period': p, 'fired': [...], 'removed': ..., 'name': s}
         self.byid = {}          # key string -> cmd token
 
-    def fail(self, msg):
-        self.fails.append((self.opi, msg))
+    def fail(self, msg, finding=None):
+        self.fails.append((self.opi, msg, finding))
+
+    def check_grid(self):
+        """a repeating event is meant to run at first_run + k * period (that is what _restoreEvents
+        re-establishes); the periodic wrapper re-schedules from the moment it ran (finding C18-repeat-drifts)"""
+        due = dict((x[1], x[0]) for x in self.L.sched.schedule)
+        for c, o in self.repeat.items():
+            if o['removed'] is None and o['key'] in due and 'first' in o:
+                t = int(due[o['key']])
+                if (t - o['first']) % o['period'] != 0:
+                    self.fail('the repeating command c%d (every %d s from %d) is now due at %d, off its grid by %d s: '
+                              'the wrapper re-scheduled it from the time it ran, not from the time it was due'
+                              % (c, o['period'], o['first'], t, (t - o['first']) % o['period']), finding=FINDING_DRIFT)
+                    self.tags.add('p-repeat-drifted')
+                    o['first'] = t          # report each shift once
 
     # ---- lifecycle
     def fresh(self, now):
@@ -260,7 +276,7 @@ class PlugImpl(object):
             r = L.say('scheduler repeat %s%s %d echo c%d' % ('--delay %d ' % delay if delay else '', name, period, c))
             reply = classify(r)
             if reply == 'silent':
-                self.repeat[c] = {'period': period, 'fired': [], 'removed': None, 'key': name}
+                self.repeat[c] = {'period': period, 'fired': [], 'removed': None, 'key': name, 'first': self.clk.t + delay}
                 self.byid[name] = c
                 self.tags.add('p-repeat')
         elif k == 'plist':
@@ -313,6 +329,7 @@ class PlugImpl(object):
             texts = L.drain()
             ran = self.on_fired(texts)
             self.tags.add('p-run-%d' % min(len(self.picks), 3))
+            self.check_grid()
         elif k == 'pfinal':
             self.final_check()
             return None
@@ -420,6 +437,14 @@ def run_case(ops, kind, clk, heap_install):
     if not ok:
         i = im.fails[0][0]
         msg = 'op #%d %r: %s' % (i, ops[i] if i < len(ops) else None, im.fails[0][1])
+    finding = None
+    if not ok and all(f[2] is not None for f in im.fails):
+        finding = im.fails[0][2]
+    elif not ok:
+        # a failure outside the known class decides
+        first = [f for f in im.fails if f[2] is None][0]
+        i = first[0]
+        msg = 'op #%d %r: %s' % (i, ops[i] if i < len(ops) else None, first[1])
     c = Case({'plugin_ops': ops}, impl='\n'.join(obs), oracle_ok=ok, oracle_msg=msg,
-             tags=tuple(sorted(im.tags)), kind=kind)
+             tags=tuple(sorted(im.tags)), kind=kind, finding=finding)
     return c, lines
